@@ -1,7 +1,7 @@
 /-
   C07 — the remaining primitives and client programs.
 -/
-import ShVerif.Proofs.C07Rune5
+import ShVerif.Proofs.C07Look
 namespace ShVerif.C07
 open ShVerif ShVerif.L2
 set_option linter.unusedSimpArgs false
@@ -102,28 +102,22 @@ theorem endLit_ok_le (a : LSt) (h : a.endLit.2.ok = true) : a.ok = true := by
 theorem pos_ok_le (a : LSt) (h : a.pos.2.ok = true) : a.ok = true := by
   unfold LSt.pos at h; simp at h; exact h.1
 
-theorem zshNum_not_ok (a : LSt) : a.zshNum.2.ok = false := rfl
-theorem stopAt_not_ok (a : LSt) (r : Nat) : (a.stopAt r).2.ok = false := by
-  unfold LSt.stopAt
-  simp only
-  split
-  · rfl
-  · split <;> rfl
+theorem zshNum_ok_le (a : LSt) (h : a.zshNum.2.ok = true) : a.ok = true :=
+  ((zshNum_ok_iff a).mp h).1
+
+theorem stopAt_ok_le' (a : LSt) (r : Nat) (h : (a.stopAt r).2.ok = true) : a.ok = true :=
+  forget_ok_le (stopAt_ok_le a r h)
+
+theorem peek_ok_le' (a : LSt) (h : a.peek.2.ok = true) : a.ok = true := peek_ok_le a h
 
 theorem specRun_ok_le {α : Type} (p : Prog α) : ∀ (a : LSt), (specRun p a).2.ok = true → a.ok = true := by
   induction p with
   | ret x => intro a h; exact h
   | rune k ih => intro a h; unfold specRun at h; exact rune_ok_le a (ih _ _ h)
-  | peek k ih => intro a h; unfold specRun at h; rw [← peek_ok a]; exact ih _ _ h
+  | peek k ih => intro a h; unfold specRun at h; exact peek_ok_le a (ih _ _ h)
   | peekTwo k ih => intro a h; unfold specRun at h; exact peekTwo_ok_le a (ih _ _ _ h)
-  | zshNum k ih =>
-    intro a h; unfold specRun at h
-    have this : a.zshNum.2.ok = true := ih _ _ h
-    rw [zshNum_not_ok] at this; cases this
-  | stopAt r k ih =>
-    intro a h; unfold specRun at h
-    have this : (a.stopAt r).2.ok = true := ih _ _ h
-    rw [stopAt_not_ok] at this; cases this
+  | zshNum k ih => intro a h; unfold specRun at h; exact zshNum_ok_le a (ih _ _ h)
+  | stopAt r k ih => intro a h; unfold specRun at h; exact stopAt_ok_le' a r (ih _ _ h)
   | newLit r k ih => intro a h; unfold specRun at h; exact newLit_ok_le a r (ih _ h)
   | endLit k ih => intro a h; unfold specRun at h; exact endLit_ok_le a (ih _ _ h)
   | pos k ih => intro a h; unfold specRun at h; exact pos_ok_le a (ih _ _ _ _ h)
@@ -155,7 +149,7 @@ theorem client_refines {α : Type} (p : Prog α) : ∀ {s : St} {a : LSt}, R s a
     intro s a h hok
     unfold specRun at hok ⊢
     unfold Prog.run
-    obtain ⟨s1, h1, hR1⟩ := peek_refines h
+    obtain ⟨s1, h1, hR1⟩ := peek_refines h (specRun_ok_le _ _ hok)
     simp only [h1, bind_ok]
     exact ih _ hR1 hok
   | peekTwo k ih =>
@@ -167,14 +161,18 @@ theorem client_refines {α : Type} (p : Prog α) : ∀ {s : St} {a : LSt}, R s a
     exact ih _ _ hR1 hok
   | zshNum k ih =>
     intro s a h hok
-    unfold specRun at hok
-    have this : a.zshNum.2.ok = true := specRun_ok_le _ _ hok
-    rw [zshNum_not_ok] at this; cases this
+    unfold specRun at hok ⊢
+    unfold Prog.run
+    obtain ⟨s1, h1, hR1⟩ := zshNum_refines h (specRun_ok_le _ _ hok)
+    simp only [h1, bind_ok]
+    exact ih _ hR1 hok
   | stopAt r k ih =>
     intro s a h hok
-    unfold specRun at hok
-    have this : (a.stopAt r).2.ok = true := specRun_ok_le _ _ hok
-    rw [stopAt_not_ok] at this; cases this
+    unfold specRun at hok ⊢
+    unfold Prog.run
+    obtain ⟨s1, h1, hR1⟩ := stopAt_refines h r (specRun_ok_le _ _ hok)
+    simp only [h1, bind_ok]
+    exact ih _ hR1 hok
   | newLit r k ih =>
     intro s a h hok
     unfold specRun at hok ⊢
@@ -242,9 +240,10 @@ theorem client_refines {α : Type} (p : Prog α) : ∀ {s : St} {a : LSt}, R s a
     rw [← h.f_err]
     exact ih _ h hok
 
-theorem R_init (input : List Byte) (sched : List Nat) (stopPat : List Byte) :
-    R (init input sched false stopPat) (LSt.init input stopPat) := by
+theorem R_init (input : List Byte) (sched : List Nat) (eofWith : Bool) (stopPat : List Byte)
+    (hs : stopPat.length ≤ 4) :
+    R (init input sched eofWith stopPat) (LSt.init input stopPat) := by
   unfold init LSt.init
-  constructor <;> simp [runeEOF]
+  constructor <;> simp [runeEOF, hs]
 
 end ShVerif.C07
